@@ -71,6 +71,10 @@ func (t *TypeT) reflectType() reflect.Type {
 			ft = reflect.SliceOf(f.Sub.reflectType())
 		case "map":
 			ft = reflect.TypeOf(map[string]string{})
+		case "sany":
+			ft = reflect.TypeOf([]any{})
+		case "many":
+			ft = reflect.TypeOf(map[string]any{})
 		default:
 			panic("kind " + f.Kind)
 		}
@@ -278,12 +282,14 @@ var tagsFor = map[string][]string{
 	"pstruct":  {"", "required", "omitempty"},
 	"sstring":  {"", "min=1", "max=2", "required", "dive,min=3", "min=1,dive,required", "omitempty,dive,max=4", "min=2", "dive,oneof=red green"},
 	"ssstring": {"", "dive,dive,min=2", "min=1,dive,max=1,dive,max=3", "dive,min=1"},
+	"sany":     {"", "max=1", "min=1", "required", "omitempty,max=2"},
+	"many":     {"", "max=1", "min=1", "required"},
 	"sint":     {"", "dive,min=5", "max=3", "min=1,dive,max=9"},
 	"sstruct":  {"", "max=1", "dive", "required,dive", "min=1", "omitempty,max=2,dive"},
 	"map":      {"", "min=1", "required"},
 }
 
-var kinds = []string{"string", "string", "string", "int", "int", "bool", "pstring", "struct", "struct", "pstruct", "sstring", "sstring", "ssstring", "sint", "sstruct", "sstruct", "map"}
+var kinds = []string{"string", "string", "string", "int", "int", "bool", "pstring", "struct", "struct", "pstruct", "sstring", "sstring", "ssstring", "sint", "sstruct", "sstruct", "map", "sany", "many"}
 
 func genType(r *hx.Rand, depth int) *TypeT {
 	return genTypeIn(r, depth, map[string]bool{}, depth < 2 && r.Chance(1, 3))
@@ -430,6 +436,30 @@ func genValue(r *hx.Rand, f FieldT, depth int) any {
 			out[hx.Pick(r, keyPool)] = secret(r, 3)
 		}
 		return out
+	case "sany":
+		// a list of whatever encoding/json makes of it: objects with secrets below an interface slot
+		n := r.Range(0, 3)
+		out := make([]any, n)
+		for i := range out {
+			if r.Chance(2, 3) {
+				out[i] = map[string]any{hx.Pick(r, []string{"password", "token", "a", "user"}): secret(r, r.Range(5, 9)), "n": r.Intn(9)}
+			} else {
+				out[i] = secret(r, r.Range(0, 7))
+			}
+		}
+		return out
+	case "many":
+		n := r.Range(0, 3)
+		out := map[string]any{}
+		for i := 0; i < n; i++ {
+			k := hx.Pick(r, []string{"auth", "token", "a", "user", "x y"})
+			if r.Chance(1, 2) {
+				out[k] = map[string]any{hx.Pick(r, []string{"token", "key"}): secret(r, r.Range(5, 9))}
+			} else {
+				out[k] = secret(r, r.Range(0, 7))
+			}
+		}
+		return out
 	}
 	return nil
 }
@@ -480,7 +510,7 @@ func genObject(r *hx.Rand, t *TypeT, depth int) objT {
 		}
 		o = append(o, kv{key, genValue(r, f, depth)})
 		// siblings that sort between the parent and its children
-		if (f.Kind == "struct" || f.Kind == "pstruct" || f.Kind == "sstruct" || f.Kind == "sstring" || f.Kind == "map") && r.Chance(1, 2) {
+		if (f.Kind == "struct" || f.Kind == "pstruct" || f.Kind == "sstruct" || f.Kind == "sstring" || f.Kind == "map" || f.Kind == "sany" || f.Kind == "many") && r.Chance(1, 2) {
 			for n := r.Range(1, 2); n > 0; n-- {
 				o = append(o, kv{f.JSON + hx.Pick(r, lowSuffix), genJunk(r, depth+2)})
 			}
@@ -589,6 +619,10 @@ func genCase(r *hx.Rand, tier string) caseT {
 		}
 		b, _ := json.Marshal(body)
 		c.Body = string(b)
+	}
+	if r.Chance(1, 8) {
+		// JSON allows white space around the value
+		c.Body = hx.Pick(r, []string{" ", "\n", "\t", "\r\n", "  \n "}) + c.Body + hx.Pick(r, []string{"", " ", "\n"})
 	}
 	if r.Chance(1, 2) {
 		c.MaxErrors = r.Range(1, 3)
@@ -1049,8 +1083,9 @@ func observe(c *caseT, rt reflect.Type, secrets []string) (o obsT) {
 	body := []byte(c.Body)
 	pm, err := validation.ComputePresence(body)
 	if err != nil {
-		o.other = "presence:" + err.Error()
-		return o
+		// the body is a JSON object (emit checked that): refusing it is an observation — an empty
+		// presence set, which the oracle rejects whenever the body has a key
+		pm = validation.PresenceMap{}
 	}
 	o.pm = sortedKeys(pm)
 	o.leaves = pm.LeafPaths()
@@ -1581,7 +1616,9 @@ func fixedCases() []caseT {
 		{Body: `{"userName":"ab","apiKey":"q2_short","Owner":{"name":"abc"},"rows":[["a"]],"kidsList":[{"name":"abc"}]}`, Named: "FullC", Mode: 1, Redact: []string{"apiKey", "rows.0.0"}},   // K05e
 		{Body: `{"email":"x","age":9,"nerr":2}`, Named: "FullV", Mode: 2, MaxErrors: 3},                                                                                                      // K05g
 		{Body: `{"email":"x","age":9,"nerr":4}`, Named: "FullV", Mode: 3, MaxErrors: 2},
-		{Body: `{"id":"x","kind":"zzz","name":"n","token":"short"}`, Named: "FullE", Mode: 0},                                                                              // K05h
+		{Body: `{"id":"x","kind":"zzz","name":"n","token":"short"}`, Named: "FullE", Mode: 0},
+		{Body: `{"items":[{"tags":["ab","abcd"],"label":"x"}]}`, Named: "FullE", Mode: 0},                                                                                  // element of a promoted slice inside an array element
+		{Body: " \n\t{\"user\":{\"name\":\"xy\"},\"a\":\"q\"} \n", T: userT, ViaApp: true},                                                                                 // white space around the object                                                                              // K05h
 		{Body: `{"id":"x","kind":"zzz","name":"n","token":"q9_short"}`, Named: "FullE", Mode: 1, Redact: []string{"token", "id"}},                                          // K05h (full)
 		{Body: `{"users":[{"name":"al","password":"q7_hunter2x"},{"name":"bo","password":"q8_s3cretxx"}]}`, Named: "FullU", Mode: 1, Redact: []string{"users.1.password"}}, // container value, unexported embedded struct
 		{Body: `{"owner":{"name":"a","password":"short","pin":"12"}}`, Named: "FullU", Mode: 0},
